@@ -12,9 +12,11 @@ m = {
     'setup_cmd': 'python3 vp/check.py --setup',
     'hooks': {
         'guard': 'FIX8_VERIF',
-        'enable': 'no source hooks are needed: every seam is link-time interposition in the harness executables (clock, pthread, '
-                  'file system calls, Poco SocketImpl subclass), -fno-access-control, and -include engines/sched/ff_shim.hpp which wraps '
-                  'FastFlow\'s atomics in scheduling points; the guard name is reserved and unused',
+        'enable': 'one source hook: include/fix8/ff/buffer.hpp SWSR_Ptr_Buffer::reset() calls FIX8_VERIF_POINT(9031) when the translation unit defines '
+                  'FIX8_VERIF and FIX8_VERIF_POINT; only harness/c30_mpmc.cpp does (a scheduling point in front of the wipe of a recycled queue segment, '
+                  'which for segments of up to 512 slots is a plain loop that cannot be interposed). Every other seam is link-time interposition in the harness '
+                  'executables (clock, pthread, file system calls, Poco SocketImpl subclass), -fno-access-control, and -include engines/sched/ff_shim.hpp '
+                  'which wraps FastFlow\'s atomics in scheduling points; libfix8 itself is never built with the guard on',
         'baseline_off_cmd': 'make -C /repo -k check',
         'source_commits': HOOK_COMMITS,
         'add_only': True,
